@@ -494,6 +494,27 @@ func (o *Obligation) Render(logic string) string {
 		axText.WriteString(g.axioms[i].Text)
 		axText.WriteString(" ; axiom " + g.axioms[i].Name + "\n")
 	}
+	// string literals are concrete: what strings.HasPrefix/CutPrefix say of a pair of them is computed
+	if emittedFn["str.hasPrefix"] {
+		for _, a := range g.strOrder {
+			if !containsSym(text, g.strLits[a]) {
+				continue
+			}
+			for _, p := range g.strOrder {
+				if p == "" || !containsSym(text, g.strLits[p]) {
+					continue
+				}
+				if strings.HasPrefix(a, p) {
+					axText.WriteString(fmt.Sprintf("(assert (str.hasPrefix %s %s)) ; literals\n", g.strLits[a], g.strLits[p]))
+					if rest, ok := g.strLits[strings.TrimPrefix(a, p)]; ok && emittedFn["str.cutPrefix"] {
+						axText.WriteString(fmt.Sprintf("(assert (= (str.cutPrefix %s %s) %s)) ; literals\n", g.strLits[a], g.strLits[p], rest))
+					}
+				} else {
+					axText.WriteString(fmt.Sprintf("(assert (not (str.hasPrefix %s %s))) ; literals\n", g.strLits[a], g.strLits[p]))
+				}
+			}
+		}
+	}
 	return pre.String() + fnDecl.String() + axText.String() + bodyText + "(check-sat)\n"
 }
 
